@@ -41,7 +41,10 @@ var (
 		// an id / class / bare word followed by a number or boolean on a name the attribute filters let through; escaped quoted values
 		"# Install {#install tabindex=3}\n", "{#i tabindex=3}", "{.c hidden=true}", "# h {hidden=true}\n", "# h {#i data-n=1.5 hidden=false}\n", "{title=t tabindex=-1 data-b=false}", "h {lang=en tabindex=12}\n===\n",
 		"# t {title=\"say \\\"hi\\\"\"}\n", "# u {title=\"C:\\\\temp\\\\new\" data-k=\"q\\\"r\"}\n", "{title=\"a\\\"b\" tabindex=7}", "## v {data-a=\"x\\\\y\" data-b=\"p\\\"q\" data-c=2}\n"}
-	tokExt = []string{"~~", "~", "~~~", "~~a~~", "|", "|-|", "|:-:|", "| - | - |", "|a|b|\n|-|-|\n|c|d|", "---|---", ":--", "--:", ":-:", "\\|", "[^1]", "[^1]:", "[^a]: ", "[^", "^]", "[ ]", "[x]", "[X] ", "- [ ] ", "- [x] ", ": ", ":", "\n: ", "\n:   ", "'", "\"", "--", "---", "...", "<<", ">>", "''", "\"a\"", "'a'", "a's", "\\ ", "(c)", "1'", "''\"", "'ve", "'re", "'ll", "'d", "'m", "'t", "'s", " 've\n", " 're\n\n", "we 'll", "I've", "'r", "'v", "\"'", "--\n", "...\n", "<<\n", "| `x` \\| y |", "| `p\\|q` |", "`x\\|y` | z\n--|--|--\n", "|a|\n|-|\n| `p\\|q` |\n", "|a|b|\n|-|-|\n| `x` \\| y | z |\n", "|`a\\|b`|\n|-|\n|`c\\|d`|e\\|f|\n", "\\|`", "`\\|", "|a|\n|-|\n|`<b>\\|`|\n", "`<\\|`", "`\"\\|&`"}
+	tokExt = []string{"~~", "~", "~~~", "~~a~~", "|", "|-|", "|:-:|", "| - | - |", "|a|b|\n|-|-|\n|c|d|", "---|---", ":--", "--:", ":-:", "\\|", "[^1]", "[^1]:", "[^a]: ", "[^", "^]", "[ ]", "[x]", "[X] ", "- [ ] ", "- [x] ", ": ", ":", "\n: ", "\n:   ", "'", "\"", "--", "---", "...", "<<", ">>", "''", "\"a\"", "'a'", "a's", "\\ ", "(c)", "1'", "''\"", "'ve", "'re", "'ll", "'d", "'m", "'t", "'s", " 've\n", " 're\n\n", "we 'll", "I've", "'r", "'v", "\"'", "--\n", "...\n", "<<\n", "| `x` \\| y |", "| `p\\|q` |", "`x\\|y` | z\n--|--|--\n", "|a|\n|-|\n| `p\\|q` |\n", "|a|b|\n|-|-|\n| `x` \\| y | z |\n", "|`a\\|b`|\n|-|\n|`c\\|d`|e\\|f|\n", "\\|`", "`\\|", "|a|\n|-|\n|`<b>\\|`|\n", "`<\\|`", "`\"\\|&`",
+		// definition lists whose later items have terms of several lines, the continuation line reached through a tab
+		// inside a container (the term keeps the padding of that line) and holding what inline parsers trigger on
+		">a\n>: b\n>\n>c\n>\ta@b.c d\n>: e\n", "- a\n  : b\n\n  c\n\thttp://a.b x\n  : d\n", ">t\n>: d\n>\n>u\n> \twww.a.bc *e* `c`\n>: f\n", "a\n: b\n\nc\n\t[l](/u) ~~s~~ \"q\"\n: d\n", ">a\n>: b\n>\n>c\n>\tx[^1] y\n>: d\n\n[^1]: n\n"}
 	// near-triggers: look like an extension's syntax but with the wrong letter case, width or character
 	tokNear = []string{"WWW.example.com", "Www.a.bc", "wWw.x.org/p", "ww.example.com", "wwww", "HTTP", "Https", "ftp.example.com", "example.com/path", "a.b.co",
 		"mailto", "user\uff20host.com", "http\u2236//a.b", "\uff5e\uff5ea\uff5e\uff5e", "\u02dc\u02dca", "|a|b|\n|=|=|\n", "|a|\n|\u2014|\n", "|a|\n|_|\n", "- \uff3b \uff3d x", "- (x) a",
